@@ -11,6 +11,9 @@ from vlib import (HarnessError, build, finish, log, mc_coverage, parallel, read_
 ASSUME = ["storage contract: Create/Remove/Rename/SetMeta are atomic and durable on return; file data is durable up to the last successful Sync; "
           "after a crash each file keeps its synced prefix plus any prefix of the rest, possibly followed by zeros or garbage",
           "the witness subset is proposed by the harness and checked by TLC (CrashTrace.tla CrashSafe)",
+          "for the real file storage, SetMeta's part of that contract is not assumed but checked (spec/FileStore.tla) under this file-system model: "
+          "directory operations are volatile until the directory is fsynced and any subsequence of them may survive a crash, unsynced file data may be "
+          "lost, cut or garbage, rename is atomic; strace reports the system calls faithfully",
           "TLC, the Json module, the harness's recording storage and image builder (harness/internal/vt/recstor.go) are trusted"]
 
 
@@ -77,6 +80,8 @@ def main(ctx):
     else:
         sums = crash_runs(ctx, 48, 400, 1, 150, 12)
     judge(ctx, sums)
+    from fstor import fstor_part
+    fstor_part(ctx)      # the real file storage's CURRENT protocol (what the first assumption below says about SetMeta)
     tot = {}
     for s in sums:
         for k in ("batches", "storage_ops", "crash_points", "reopens", "nested_reopens", "distinct_outcomes",
@@ -100,7 +105,17 @@ def replay(ctx, path):
     import glob
     bad = 0
     for f in sorted(glob.glob(os.path.join(path, "*.ndjson"))):
-        r = tlc_trace(ctx, "CrashTrace.tla", "CrashTrace.cfg", f)
+        b = os.path.basename(f)
+        if b.startswith("fs-image"):
+            from fstor import replay_image
+            if replay_image(ctx, f, json.load(open(os.path.join(path, "meta.json")))):
+                bad += 1
+                print("VIOLATION property=%s replay=%s" % (ctx.pid, path))
+            continue
+        if b.startswith("fstrace-"):
+            r = tlc_trace(ctx, "FileStoreTrace.tla", "FileStoreTrace.cfg", f)
+        else:
+            r = tlc_trace(ctx, "CrashTrace.tla", "CrashTrace.cfg", f)
         if not r["accepted"]:
             bad += 1
             print("VIOLATION property=%s replay=%s" % (ctx.pid, path))
